@@ -92,6 +92,11 @@ def griffe_side(griffe, root: str, env: dict) -> dict:
             res["lam"] = _guard(lambda: _first_name(griffe, mm["s_lam"].value, n))
             res["cmp"] = _guard(lambda: _first_name(griffe, mm["s_cmp"].value, n))
             res["api"] = _guard(lambda: {"r": o.resolve(n)})
+            for rk in env.get("rks", []):      # `<root>.n`, root not a name
+                res[f"v_{rk}"] = _guard(lambda rk=rk: _canon(mm[f"s_v_{rk}"].value))
+            if "call" in env.get("rks", []):
+                res["v_chain"] = _guard(lambda: _canon(mm["s_v_chain"].value))
+                res["v_dec"] = _guard(lambda: {"r": mm["s_v_dec"].decorators[0].callable_path})
         elif sc.endswith(".init"):
             cls = objs[sc[0]]
             mm = cls.members
@@ -102,6 +107,10 @@ def griffe_side(griffe, root: str, env: dict) -> dict:
             res["lam"] = _guard(lambda: _first_name(griffe, mm["i_lam"].value, n))
             res["cmp"] = _guard(lambda: _first_name(griffe, mm["i_cmp"].value, n))
             res["api"] = _guard(lambda: {"r": mm["__init__"].resolve(n)})
+            for rk in env.get("rks", []):
+                res[f"v_{rk}"] = _guard(lambda rk=rk: _canon(mm[f"i_v_{rk}"].value))
+            if "call" in env.get("rks", []):
+                res["v_chain"] = _guard(lambda: _canon(mm["i_v_chain"].value))
         else:
             cls = objs[sc[0]]
             res["api"] = _guard(lambda: {"r": cls.members["m"].resolve(n)})
@@ -117,6 +126,8 @@ def where(zrt, o):
         return ["local"]
     if o is zrt.PARAM:
         return ["param"]
+    if o is zrt.ATTR:
+        return ["attr"]
     if isinstance(o, zrt.V):
         return ["obj", o.path]
     if isinstance(o, types.ModuleType):
